@@ -134,7 +134,7 @@ def guards(ctx, tasks):
     ctx.require(ctx.n('entry:action') > 0 and ctx.n('entry:model') > 0, 'one of the two prebuild entry points was never used')
     ctx.require(ctx.nd('states') == len(tasks) or ctx.caps_hit, 'not every task was run (%d of %d)' % (ctx.nd('states'), len(tasks)))
     ctx.require(ctx.n('family:names') >= 300, 'family names too small (%d)' % ctx.n('family:names'))
-    for lay in ELIF_LAYOUTS:
+    for lay in (ELIF_LAYOUTS if ctx.prop.lower() == 'c05' else ()):
         ctx.require(ctx.n('layout:' + lay) >= 100 or ctx.caps_hit, 'layout %s hardly used (%d)' % (lay, ctx.n('layout:' + lay)))
     for fam in ('statements', 'expressions', 'sequences', 'nesting'):
         ctx.require(ctx.n('family:' + fam) >= 500, 'family %s too small (%d)' % (fam, ctx.n('family:' + fam)))
